@@ -225,10 +225,9 @@ impl<'p> Evaluator<'_, 'p> {
                             message: "truncated format code".into(),
                         }))
                     } else {
-                        Err(self.report_error(EvalErrorKind::Other {
-                            span: None,
-                            message: "missing format precision digits".into(),
-                        }))
+                        // As in C, a `.` without digits means a precision of zero.
+                        *rem = rem_cont;
+                        Ok(Some(FieldWidth::Inline(0)))
                     }
                 } else {
                     let width = rem_cont[..i].parse().map_err(|_| {
